@@ -413,6 +413,12 @@ fn dechunk(mut b: &[u8]) -> Option<Vec<u8>> {
     }
 }
 
+/// Verification hook: exposes the private chunked-transfer decoder to the external harness.
+#[cfg(feature = "verif-hooks")]
+pub fn verif_dechunk(b: &[u8]) -> Option<Vec<u8>> {
+    dechunk(b)
+}
+
 #[cfg(test)]
 mod tests {
     use super::*;
